@@ -3,11 +3,12 @@ from ..core.model import Program
 from ..core.report import CheckContext
 from ..core.resolve import Resolver
 from ..rules import inval, scale
-from .common import run_control
+from .common import run_control, generic_rules
 
 
 def analyse(ctx: CheckContext, p: Program):
     r = Resolver(p)
+    generic_rules(ctx, p, r, "C05")
     scale.check_scale(ctx, p, r)
     scale.check_graph_roles(ctx, p, r)
     # rows inserted later (constant-enthalpy projection, pocket cutting, utility levels) are written through fresh views
@@ -28,6 +29,8 @@ def run(ctx: CheckContext):
     pta = "OpenPinch/analysis/problem_table_analysis.py"
     ut = "OpenPinch/analysis/utility_targeting.py"
     ind = "OpenPinch/analysis/indirect_integration_entry.py"
+    run_control(ctx, "C05/zero-recovery-skips-shift", analyse, p.root, "OpenPinch/analysis/problem_table_analysis.py",
+                "if isinstance(known_heat_recovery, float):", "if known_heat_recovery:", "TRUTHY")
     run_control(ctx, "C05/flag-dropped-in-cascade", analyse, p.root, pta,
                 "problem_table_algorithm(pt, hot_streams, cold_streams, is_shifted)", "problem_table_algorithm(pt, hot_streams, cold_streams)", "SCALE")
     run_control(ctx, "C05/real-utility-cascade-shifted", analyse, p.root, ut,
